@@ -501,8 +501,16 @@ def make_phonetic_event(shape):
                 clauses.append(("nonempty_return_means_ongoing", ongb is True or L == 0))
                 clauses.append(("cover:list_returned", True))
                 if ev == "key":
-                    # typed text grows by exactly the key's character, or stays (key without a character)
-                    clauses.append(("key_appends_one_char_or_nothing", z3.BoolVal(len(buf1) in (n, n + 1)) if True else True))
+                    # typed text grows by exactly the key's character (the one the key's name denotes), or stays (key without a character)
+                    grown = z3.BoolVal(len(buf1) in (n, n + 1))
+                    if len(buf1) == n + 1:
+                        from common import keyname_spec, published_keys
+                        spec_ = keyname_spec()
+                        rows_ = [(code, spec_[nm][0]) for nm, code in published_keys() if nm in spec_ and spec_[nm][0]]
+                        grown = z3.And(seq_eq(buf1[:n], buf0), z3.And([z3.Implies(c["key"] == code, simp(bv(buf1[-1], 32) == cp)) for code, cp in rows_]))
+                    elif len(buf1) == n:
+                        grown = seq_eq(buf1, buf0)
+                    clauses.append(("key_appends_one_char_or_nothing", grown))
             else:
                 txt = ret.fields[prog.enum_fields[("Suggestion", "Single")].index("suggestion")].elems
                 empty = len(txt) == 0
@@ -745,6 +753,8 @@ def obl_phonetic_glue(check, max_n, budget_s=None):
             found = stale_preselection_search()
         elif vs[0]["clause"] == "shown_list_and_preselection_are_the_assemblys_answer":
             found = shown_answer_search()
+        elif vs[0]["clause"] in ("key_appends_one_char_or_nothing", "auxiliary_is_the_typed_text"):
+            found = typed_text_search()
         elif vs[0]["clause"] == "commit_without_a_list_changes_nothing":
             found = listless_commit_search()
         elif vs[0]["clause"] == "memo_entries_survive_the_event":
@@ -772,6 +782,37 @@ def obl_phonetic_glue(check, max_n, budget_s=None):
         if worst[st] > worst[status]:
             status = st
     check.obligation(name, "mirsym", status, detail + "; %d counterexample models" % len(vio))
+
+
+def typed_text_search():
+    """Native: the auxiliary text of every list returned while typing is the text as typed, character for character (every printable key
+    alone, and words with capitals), also after a backspace; with the English option the last candidate is that text too."""
+    import obl_assembly
+    keys = obl_assembly.char_keys()
+    texts = [ch for ch in keys if ch.isprintable()] + ["Ami", "KolM", "aBc", "AMI", "kHaB", "ami", "a.B", "(Ami)"]
+    scs, meta = [], []
+    for en in (False, True):
+        cfg = {"layout": "avro_phonetic", "database": REPO + "/data", "opts": {"phonetic_suggestion": True, "english": en}}
+        for t in texts:
+            if not all(ch in keys for ch in t):
+                continue
+            steps = [{"op": "new", "config": cfg}] + [{"op": "key", "key": keys[ch], "sel": 0} for ch in t]
+            if len(t) > 1:
+                steps += [{"op": "backspace"}]
+            scs.append({"steps": steps})
+            meta.append((t, en))
+    for (t, en), sc, r in zip(meta, scs, run_replay_parallel(scs)):
+        rr = r["results"]
+        if any("panic" in x for x in rr):
+            continue
+        for i, x in enumerate(rr[1:]):
+            want = t[:i + 1] if i < len(t) else t[:-1]
+            sug = x.get("suggestion", {})
+            if sug.get("kind") == "full" and sug.get("aux") != want:
+                return sc, x, "typed %r (English option %s): after %d events the auxiliary text is %r, the text typed so far is %r" % (t, en, i + 1, sug.get("aux"), want)
+            if en and sug.get("kind") == "full" and want.isascii() and any(ch.isalpha() for ch in want) and want not in (sug.get("list") or []) and i < len(t):
+                return sc, x, "typed %r with the English option on: the typed text %r is not among the candidates %s" % (t, want, sug.get("list"))
+    return None
 
 
 def listless_commit_search():
